@@ -554,8 +554,13 @@ def check_verdict_has_own_hash(rep, prog):
                     continue
                 sig, subj, verdict = e[2][0], e[2][2], e[2][3]
                 hashed = any(c[1] == '%s.hashdata' % sig and c[2][:1] == [subj] for c in calls[:i])
-                own = hashed and ('%s.hashdata(%s)' % (sig, subj)) in verdict
-                failing = any(v is True and (verdict + '.causes_signature_verify_to_fail') in t for t, v, sk in facts)
+                hd = '%s.hashdata(%s)' % (sig, subj)
+                # the verdict is computed from, or chosen by a decision over, the result of checking this signature's own hash
+                own = hashed and (hd in verdict or any(hd in t for t, v, sk in facts))
+                forced = []
+                for t, v, sk in facts:
+                    sigdata.implied_atoms(sk, v, forced)
+                failing = any(v is True and a[0] == 'expr' and a[1] == verdict + '.causes_signature_verify_to_fail' for a, v in forced)
                 key = (sig, subj, verdict, own, failing)
                 if key in seen:
                     continue
